@@ -147,6 +147,84 @@ pub fn separate(sb: &Sandbox, layout: &Layout, sched: &SepSchedule) -> Option<Se
     Some(r)
 }
 
+
+/// A parallel build farm (`make -j`): packages whose dependencies are built are built
+/// *concurrently* into one artifact directory, as simulated processes that park at every sandbox
+/// call (chunked I/O, so a file is read and written in many steps) while a seeded scheduler
+/// decides who performs the next one. Returns (all ok, interfaces, cores, main.go, processes,
+/// scheduling decisions, executed steps).
+pub fn separate_parallel(sb: &Sandbox, layout: &Layout, seed: u64) -> Option<(bool, BTreeMap<String, Vec<u8>>, BTreeMap<String, Vec<u8>>, Option<Vec<u8>>, u64, usize, Vec<Step>)> {
+    let mut p = Prng::new(seed);
+    let mut done: Vec<String> = Vec::new();
+    let mut remaining: std::collections::BTreeSet<String> = layout.pkgs.keys().cloned().collect();
+    let dirs = vec!["par".to_string()];
+    let (mut procs, mut switches) = (0u64, 0usize);
+    let mut steps = Vec::new();
+    let mut concurrent_batches = 0;
+    let chunk = [16usize, 64, 256, 1024, 4096][p.usize(5)];
+    while !remaining.is_empty() {
+        let mut ready: Vec<String> = remaining.iter().filter(|n| layout.pkgs[*n].imports.iter().all(|d| d == "Builtin" || d == *n || done.contains(d))).cloned().collect();
+        if ready.is_empty() {
+            return None;
+        }
+        p.shuffle(&mut ready);
+        ready.truncate(1 + p.usize(3));
+        let mut specs = Vec::new();
+        let mut bodies: Vec<Box<dyn FnOnce() -> anyhow::Result<crate::cli::CliOut> + Send>> = Vec::new();
+        for name in &ready {
+            let args = ops::pkg_args(sb, "build", &layout.pkgs[name], &dirs, "par", &mut p);
+            specs.push(ProcSpec { entropy: p.next_u64(), readdir: p.next_u64(), chunk, ..Default::default() });
+            bodies.push(Box::new(move || crate::cli::entry(&args)));
+        }
+        if ready.len() >= 2 {
+            concurrent_batches += 1;
+        }
+        let mut sched = Prng::new(p.next_u64());
+        let (results, schedule) = crate::world::run_concurrent(&sb.root, specs, bodies, &mut sched, None);
+        procs += results.len() as u64;
+        switches += schedule.len();
+        let mut failed = false;
+        for (name, res) in ready.iter().zip(results.iter()) {
+            let result = match &res.exit {
+                Exit::Ok => "ok".to_string(),
+                Exit::Err(m) => format!("err: {}", sb.normalise(m).chars().take(200).collect::<String>()),
+                Exit::Panicked(m) => format!("PANIC: {}", sb.normalise(m)),
+                o => o.class().to_string(),
+            };
+            steps.push(Step { op: format!("build (one of {} concurrent)", ready.len()), pkg: name.clone(), dir: "par".into(), result });
+            failed |= res.exit != Exit::Ok;
+        }
+        if failed {
+            return Some((false, BTreeMap::new(), BTreeMap::new(), None, procs, switches, steps));
+        }
+        for name in ready {
+            remaining.remove(&name);
+            done.push(name);
+        }
+    }
+    if concurrent_batches == 0 {
+        return None;
+    }
+    let mut ifaces = BTreeMap::new();
+    let mut cores = BTreeMap::new();
+    for n in &done {
+        if let Some(b) = sb.read(&format!("par/{n}.interface")) {
+            ifaces.insert(n.clone(), b);
+        }
+        if let Some(b) = sb.read(&format!("par/{n}.core")) {
+            cores.insert(n.clone(), b);
+        }
+    }
+    let core_paths: Vec<String> = done.iter().map(|n| format!("par/{n}.core")).collect();
+    let spec = ProcSpec { entropy: p.next_u64(), readdir: p.next_u64(), ..Default::default() };
+    let res = ops::goml(sb, &spec, ops::link_args(sb, &core_paths, "par/main.go", &mut p));
+    procs += 1;
+    let ok = res.exit == Exit::Ok;
+    steps.push(Step { op: "link".into(), pkg: done.join(","), dir: "par".into(), result: if ok { "ok".into() } else { format!("{:?}", res.exit).chars().take(200).collect() } });
+    let main_go = if ok { sb.read("par/main.go") } else { None };
+    Some((ok, ifaces, cores, main_go, procs, switches, steps))
+}
+
 /// Link the cores found in the sandbox through the library API (same code `goml link` runs) to
 /// obtain the Go AST for execution on the simulated runtime.
 pub fn link_ast(sb: &Sandbox, core_paths: &[String], entropy: u64) -> Result<(compiler::go::goast::File, String), String> {
@@ -425,6 +503,31 @@ pub fn check_case(sb: &Sandbox, seed: u64, idx: usize, case: &Case, nsched: usiz
             break;
         }
     }
+    // (5) the same project on a parallel build farm: independent packages built concurrently
+    // into one directory must leave what the sequential schedules leave
+    if let Some(f) = &first {
+        if f.ok && r.violations.is_empty() && replay_sched.is_none() && layout.pkgs.len() >= 3 && idx % 2 == 0 {
+            let pseed = mix(&[seed, idx as u64, purpose("c14-parallel")]);
+            sb.materialise(&case.files);
+            link_out(sb, &case.name);
+            if let Some((ok, ifaces, cores, main_go, procs, switches, steps)) = separate_parallel(sb, &layout, pseed) {
+                r.procs += procs;
+                *r.probes.entry("parallel_farm_projects").or_insert(0) += 1;
+                *r.probes.entry("parallel_farm_scheduling_decisions").or_insert(0) += switches as u64;
+                r.digest = sha(format!("{}{}", r.digest, serde_json::to_string(&steps).unwrap()).as_bytes());
+                let same = ok
+                    && f.iface_build == ifaces
+                    && f.cores.iter().all(|(k, v)| cores.get(k).map(|w| sb.normalise(&String::from_utf8_lossy(w)) == sb.normalise(&String::from_utf8_lossy(v))).unwrap_or(false))
+                    && f.main_go == main_go;
+                if !same {
+                    let failing = steps.iter().find(|s| s.result != "ok").map(|s| format!("{} {}: {}", s.op, s.pkg, s.result)).unwrap_or_else(|| "artifacts differ".into());
+                    let mut v = mk("parallel-build-differs", format!("C14: project {}: building independent packages concurrently into one directory does not give what a sequential build gives ({})", case.name, failing), pseed);
+                    v.replay["kind"] = json!("c14-parallel");
+                    r.violations.push(v);
+                }
+            }
+        }
+    }
     r
 }
 
@@ -531,7 +634,11 @@ pub fn replay(file: &Value) -> bool {
     let sched = r["schedule_seed"].as_u64().unwrap_or(0);
     // order-dependent-artifacts needs a second schedule to compare with
     let class = r["class"].as_str().unwrap_or("");
-    let res = if class == "order-dependent-artifacts" {
+    let res = if r["kind"] == "c14-parallel" {
+        // the parallel farm is compared with the first sequential schedule; both are functions of
+        // (seed, index), so the case is simply run again (the parallel phase runs for even indices)
+        check_case(&sb, file["seed"].as_u64().unwrap_or(0), r["index"].as_u64().unwrap_or(0) as usize, &case, 1, None)
+    } else if class == "order-dependent-artifacts" {
         check_case(&sb, file["seed"].as_u64().unwrap_or(0), r["index"].as_u64().unwrap_or(0) as usize, &case, 16, None)
     } else {
         check_case(&sb, file["seed"].as_u64().unwrap_or(0), r["index"].as_u64().unwrap_or(0) as usize, &case, 1, Some(sched))
@@ -559,7 +666,7 @@ fn shrink_violation(sb: &Sandbox, v: &mut Violation) {
     let r = v.replay.clone();
     let mut files = files_from_json(&r["files"]);
     let class = r["class"].as_str().unwrap_or("").to_string();
-    if class == "order-dependent-artifacts" || r["kind"] == "c14-fixture" {
+    if class == "order-dependent-artifacts" || r["kind"] == "c14-fixture" || r["kind"] == "c14-parallel" {
         return;
     }
     let sched = r["schedule_seed"].as_u64().unwrap_or(0);
